@@ -39,8 +39,11 @@ type sharedOp struct {
 type sharedScenario struct {
 	Formulas []string     `json:"formulas"`
 	Others   []string     `json:"other_texts"`
-	Specs    []dataSpec   `json:"data_specs"`
-	Scripts  [][]sharedOp `json:"scripts"`
+	Specs    []dataSpec   `json:"-"`
+	Scripts  [][]sharedOp `json:"-"`
+	SpecsS   []string     `json:"data_specs"`
+	ScriptsS [][]string   `json:"scripts_per_task"`
+	Flush    bool         `json:"pools_flushed_at_every_handover"`
 	Zone     string       `json:"zone"`
 	Clock    string       `json:"clock"`
 	Strategy string       `json:"strategy"`
@@ -341,5 +344,14 @@ func runShared(rc *RunCtx) {
 		rc.probe("tasks_interleaved_inside_an_op")
 	}
 	sc.Switches, sc.Steps, sc.Trace = sched.switches, sched.steps, fmt.Sprintf("%016x", sched.trace.h)
+	sc.Flush = flushAtHandover
+	for t := range sc.Scripts {
+		sc.SpecsS = append(sc.SpecsS, specString(sc.Specs[t]))
+		var ops []string
+		for _, op := range sc.Scripts[t] {
+			ops = append(ops, opNames[op.Kind]+"("+strconv.Itoa(op.Idx)+")")
+		}
+		sc.ScriptsS = append(sc.ScriptsS, ops)
+	}
 	rc.sample = sc
 }
